@@ -93,6 +93,8 @@ type Engine struct {
 	hashConcLens map[int]bool
 	hashSymLens  map[int]bool
 	hashAlwaysUF bool
+	fpExact      bool
+	fpIdeal      int
 
 	ev *eventCtx // event mode (L2), nil in sequential mode
 
@@ -161,6 +163,7 @@ func (e *Engine) resetPath() {
 	e.gob = nil
 	e.hashConcLens = map[int]bool{}
 	e.hashSymLens = map[int]bool{}
+	e.fpExact = false
 }
 
 // assume adds a constraint to the path condition (no feasibility check).
@@ -194,6 +197,20 @@ func (e *Engine) branch(c *Term) bool {
 			e.pc = append(e.pc, e.tb.Not(c))
 		}
 		return d
+	}
+	// syntactic shortcut: the condition (or its negation) is already a conjunct of the path condition
+	nc := e.tb.Not(c)
+	for _, p := range e.pc {
+		if p == c {
+			e.decisions = append(e.decisions, true)
+			e.forced = append(e.forced, true)
+			return true
+		}
+		if p == nc {
+			e.decisions = append(e.decisions, false)
+			e.forced = append(e.forced, true)
+			return false
+		}
 	}
 	rt := e.feasible(c)
 	var rf SatResult
@@ -284,6 +301,11 @@ func (e *Engine) newInput(name string, s Sort) *Term {
 
 // newIntInput creates a symbolic Go integer of type it according to the numeric mode.
 func (e *Engine) newIntInput(name string, it IntTy) *Term {
+	if e.mode == "real" {
+		t := e.newInput(name, RealSort)
+		e.assume(e.tb.InRange(t, it))
+		return t
+	}
 	if e.mode == "int" {
 		t := e.newInput(name, IntSort)
 		e.assume(e.tb.InRange(t, it))
